@@ -198,7 +198,8 @@ var nsAttrMenu = [][]GAttr{
 	{{Prefix: "q", Local: "y", Raw: "2"}, {Prefix: "p", Local: "x", Raw: "1"}},
 }
 
-// Shapes: trees of depth <= 3 with <= 2 children per node, as parent index lists
+// Shapes: every tree of depth <= 3 with <= 2 children per node (13 shapes) plus
+// the 3-children root, as parent index lists
 // (element 0 is the root; names r,a,b,c,...). Simplest first.
 type Shape struct {
 	Name    string
@@ -210,6 +211,7 @@ var Shapes = []Shape{
 	{"r(a)", []int{-1, 0}},
 	{"r(a(c))", []int{-1, 0, 1}},
 	{"r(a,b)", []int{-1, 0, 0}},
+	{"r(a,b,c)", []int{-1, 0, 0, 0}},
 	{"r(a(c),b)", []int{-1, 0, 1, 0}},
 	{"r(a,b(c))", []int{-1, 0, 0, 2}},
 	{"r(a(c,d))", []int{-1, 0, 1, 1}},
@@ -493,23 +495,23 @@ func Families(thorough bool) []Family {
 		f = append(f, attrFamily(6, 3))
 		f = append(f, textFamily(2), attrValueFamily(2))
 		f = append(f, nsFamily(Shapes[2], 6, 3, 1), nsFamily(Shapes[3], 6, 3, 1))
-		for _, s := range Shapes[4:7] {
+		for _, s := range Shapes[4:8] {
 			f = append(f, nsFamily(s, 3, 2, 1))
 		}
-		f = append(f, nsFamily(Shapes[7], 3, 2, 1))
+		f = append(f, nsFamily(Shapes[8], 3, 2, 1))
 		return f
 	}
 	f = append(f, attrFamily(8, 3), attrFamily(6, 4))
 	f = append(f, textFamily(2), attrValueFamily(2), textFamily(3))
 	f = append(f, nsFamily(Shapes[1], 10, 3, 4))
 	f = append(f, nsFamily(Shapes[2], 10, 3, 2), nsFamily(Shapes[3], 10, 3, 2))
-	for _, s := range Shapes[4:7] {
+	for _, s := range Shapes[4:8] {
 		f = append(f, nsFamily(s, 6, 3, 1))
 	}
-	for _, s := range Shapes[7:10] {
+	for _, s := range Shapes[8:11] {
 		f = append(f, nsFamily(s, 4, 2, 1))
 	}
-	for _, s := range Shapes[10:] {
+	for _, s := range Shapes[11:] {
 		f = append(f, nsFamily(s, 3, 2, 1))
 	}
 	f = append(f, crossFamily())
